@@ -545,23 +545,38 @@ macro_rules! set_ops {
                         ppolys(&vh::mat_vec_mul::<K, L>(&m, &polys::<L>(a[1])))
                     }
                     "drop_check" => {
-                        // drop_check pk|sk <src> : bytes of the object's storage after drop in place (C16)
-                        use core::mem::{size_of, ManuallyDrop, MaybeUninit};
-                        fn scan<T>(mut slot: Box<MaybeUninit<ManuallyDrop<T>>>, v: T) -> (usize, usize, usize) {
-                            let _ = slot.write(ManuallyDrop::new(v));
+                        // drop_check pk|sk <src> : bytes of the object's storage after drop in place (C16), with the object placed at every
+                        // admissible offset 0, 8, .., 56 from a 64-byte boundary (a wipe that works in wider words than the type's alignment
+                        // leaves a head or tail behind only at some placements; a `Box` is always 16-aligned)
+                        use core::mem::{align_of, size_of, ManuallyDrop};
+                        fn scan<T, E>(mk: &dyn Fn() -> Result<T, E>) -> Option<(usize, usize, usize, usize)> {
                             let n = size_of::<T>();
-                            let p = slot.as_ptr() as *const u8;
-                            let before = (0..n).filter(|&i| unsafe { core::ptr::read_volatile(p.add(i)) } != 0).count();
-                            unsafe { ManuallyDrop::drop(slot.assume_init_mut()) };
-                            let after = (0..n).filter(|&i| unsafe { core::ptr::read_volatile(p.add(i)) } != 0).count();
-                            (n, before, after)
+                            let al = align_of::<T>().max(1);
+                            let mut buf = vec![0u8; n + 192];
+                            let base = { let p = buf.as_mut_ptr() as usize; (p + 63) / 64 * 64 - p };
+                            let (mut before0, mut worst, mut worst_off) = (0usize, 0usize, 0usize);
+                            let mut off = 0usize;
+                            while off < 64 {
+                                let v = match mk() { Ok(v) => v, Err(_) => return None };
+                                for b in buf.iter_mut() { unsafe { core::ptr::write_volatile(b, 0) } }
+                                let p = unsafe { buf.as_mut_ptr().add(base + off) };
+                                let slot = p as *mut ManuallyDrop<T>;
+                                unsafe { core::ptr::write(slot, ManuallyDrop::new(v)) };
+                                let before = (0..n).filter(|&i| unsafe { core::ptr::read_volatile(p.add(i)) } != 0).count();
+                                unsafe { ManuallyDrop::drop(&mut *slot) };
+                                let after = (0..n).filter(|&i| unsafe { core::ptr::read_volatile(p.add(i)) } != 0).count();
+                                if off == 0 { before0 = before; }
+                                if after > worst { worst = after; worst_off = off; }
+                                off += al.max(8);
+                            }
+                            Some((n, before0, worst, worst_off))
                         }
-                        let (n, b, af) = if a[0] == "pk" {
-                            match pk_src(a[1]) { Ok(k) => scan(Box::new(MaybeUninit::uninit()), k), Err(_) => return "err".into() }
-                        } else {
-                            match sk_src(a[1]) { Ok(k) => scan(Box::new(MaybeUninit::uninit()), k), Err(_) => return "err".into() }
-                        };
-                        format!("size={} nonzero_before={} nonzero_after={}", n, b, af)
+                        let r = if a[0] == "pk" { scan(&|| pk_src(a[1])) } else { scan(&|| sk_src(a[1])) };
+                        match r {
+                            None => return "err".into(),
+                            Some((n, b, af, wo)) => if af == 0 { format!("size={} nonzero_before={} nonzero_after={}", n, b, af) }
+                                                    else { format!("size={} nonzero_before={} nonzero_after={} at_offset={}", n, b, af, wo) },
+                        }
                     }
                     _ => panic!("unknown set op {}", op),
                 }
